@@ -466,7 +466,7 @@ class Gen:
                 continue
             if sc.in_matrix:
                 if k not in ('setreg', 'print', 'assign', 'if', 'repeat',
-                             'stage', 'break'):
+                             'stage', 'break', 'black'):
                     continue
             if k == 'stage' and not sc.in_matrix:
                 continue
@@ -584,6 +584,15 @@ class Gen:
     def k_default(self, sc, depth):
         self.tag('set-default')
         return [['action', 'set', [['default']]]]
+
+    def k_black(self, sc, depth):
+        """all four colour settings exactly zero (black, kelvin 0)"""
+        self.tag('black-colour')
+        regs = ('red', 'green', 'blue') if self.mode == 'rgb' else \
+            ('hue', 'saturation', 'brightness')
+        if sc.in_routine or not self.straight:
+            regs = ('hue', 'saturation', 'brightness', 'red', 'green', 'blue')
+        return [['setreg', r, ['num', 0]] for r in regs + ('kelvin',)]
 
     def k_wait(self, sc, depth):
         return [['wait']]
